@@ -32,6 +32,7 @@ func init() {
 			{Name: "relay-to-failed", File: "serf/query.go", Func: "func (s *Serf) relayResponse(", Old: "m.Status != StatusAlive || m.ProtocolMax < 5 || m.Name == localName", New: "m.Status == StatusLeft || m.ProtocolMax < 5 || m.Name == localName", Expect: "R2"},
 			{Name: "no-dedupe", File: "serf/query.go", Func: "func kRandomMembers(", Old: "\t\t\tif member.Name == kMembers[j].Name {\n\t\t\t\tcontinue OUTER\n\t\t\t}\n", New: "\t\t\tif member.Name == kMembers[j].Name && j > 0 {\n\t\t\t\tcontinue OUTER\n\t\t\t}\n", Expect: "R3"},
 			{Name: "more-than-k", File: "serf/query.go", Func: "func kRandomMembers(", Old: "i < 3*n && len(kMembers) < k", New: "i < 3*n && len(kMembers) <= k", Expect: "R3"},
+			{Name: "relay-guard-wraps-at-255", File: "serf/query.go", Func: "func (s *Serf) relayResponse(", Old: "if len(members) < int(relayFactor)+1 {", New: "if len(members) < int(relayFactor+1) {", Expect: "R1|relay:enough-members"},
 			{Name: "relay-in-tiny-cluster", File: "serf/query.go", Func: "func (s *Serf) relayResponse(", Old: "if len(members) < int(relayFactor)+1 {", New: "if len(members) < int(relayFactor) {", Expect: "R1"},
 			{Name: "k-plus-one", File: "serf/query.go", Func: "func (s *Serf) relayResponse(", Old: "kRandomMembers(int(relayFactor), members,", New: "kRandomMembers(int(relayFactor)+1, members,", Expect: "R1"},
 		},
@@ -41,6 +42,7 @@ func init() {
 		Explain: "Decides name-conflict resolution structurally: a reply is counted only when its payload is non-empty, its type byte is the conflict-response type and it decodes; it counts as matching only when additionally address and port equal the local node's; the self-shutdown is reached exactly on the false edge of a strict-majority test in canonical form over those two counters; the responder answers with the member it holds for the queried name and stays silent about itself.",
 		Run: runC36,
 		Mutants: []Mutant{
+			{Name: "reply-struct-reused", File: "serf/serf.go", Func: "func (s *Serf) resolveNodeConflict(", Old: "\t\tvar member Member\n", New: "", Old2: "\tvar responses, matching int\n", New2: "\tvar responses, matching int\n\tvar member Member\n", Expect: "R4"},
 			{Name: "majority-nonstrict", File: "serf/serf.go", Func: "func (s *Serf) resolveNodeConflict(", Old: "majority := (responses / 2) + 1", New: "majority := (responses + 1) / 2", Expect: "R2"},
 			{Name: "malformed-counted", File: "serf/serf.go", Func: "func (s *Serf) resolveNodeConflict(", Old: "\t\t\ts.logger.Printf(\"[ERR] serf: Failed to decode conflict query response: %v\", err)\n\t\t\tcontinue", New: "\t\t\ts.logger.Printf(\"[ERR] serf: Failed to decode conflict query response: %v\", err)\n\t\t\tresponses++\n\t\t\tcontinue", Expect: "R1"},
 			{Name: "port-ignored", File: "serf/serf.go", Func: "func (s *Serf) resolveNodeConflict(", Old: "member.Addr.Equal(local.Addr) && member.Port == local.Port", New: "member.Addr.Equal(local.Addr)", Expect: "R1"},
@@ -325,8 +327,10 @@ func runC36(c *an.Ctx) {
 	c.Rule("R1 responses++ behind payload non-empty ∧ type byte = conflict response ∧ decode ok; matching++ additionally behind address-equal ∧ port-equal")
 	c.Rule("R2 Shutdown is reached exactly on the false edge of a strict-majority test in canonical form over the two counters")
 	c.Rule("R3 the responder answers with the member it holds for the queried name and stays silent about itself")
+	c.Rule("R4 each reply is decoded into a fresh Member (no field of an earlier reply can leak into a later, sparser one)")
 	rn := sm(c, "R1", "Serf", "resolveNodeConflict")
 	if rn != nil {
+		c.Floor("R4", "decode sites in resolveNodeConflict", decodeTargetsFresh(c, "R4", []*ssa.Function{rn}), 1)
 		var incR, incM []ssa.Instruction
 		var phiR, phiM *ssa.Phi
 		an.Instrs(rn, func(in ssa.Instruction) {
